@@ -118,7 +118,7 @@ func permuteTree(t *rapid.T, y *m.Y, top bool, used map[string]bool) {
 func genYOpts(t *rapid.T, label string) m.YOpts {
 	return m.YOpts{
 		Indent:    rapid.SampledFrom([]int{2, 2, 3, 4}).Draw(t, label+"Indent"),
-		Flow:      rapid.IntRange(0, 2).Draw(t, label+"Flow"),
+		Flow:      rapid.SampledFrom([]int{0, 0, 1, 1, 2, 2, 3}).Draw(t, label+"Flow"),
 		Quote:     rapid.IntRange(0, 2).Draw(t, label+"Quote"),
 		Comments:  rapid.Bool().Draw(t, label+"Comments"),
 		SeqIndent: rapid.Bool().Draw(t, label+"SeqIndent"),
@@ -168,6 +168,19 @@ func blockRichFormula(t *rapid.T, g *fgen) *m.F {
 		}
 		return m.Or(ops...)
 	}
+}
+
+// bigListValidation: `in` over n distinct values none of which occurs in generated data, so that every node holding
+// a value of the property fails it - unless the list is cut short somewhere on the way
+func bigListValidation(n int, prop string) *m.Y {
+	seq := m.YSeq()
+	for i := 0; i < n; i++ {
+		seq.Items = append(seq.Items, m.YStr(fmt.Sprintf("value-%05d", i)))
+	}
+	v := m.YMap()
+	v.Set("targetClass", m.YStr("ex.Test"))
+	v.Set("propertyConstraints", m.YMap().Set("ex."+prop, m.YMap().Set("in", seq)))
+	return v
 }
 
 func genC15(t *rapid.T) c15Case {
@@ -253,6 +266,18 @@ func genC15(t *rapid.T) c15Case {
 			v.Keys, v.Vals = outer.Keys, outer.Vals
 			used["rego-operands"] = true
 		}
+	}
+	// a long enumeration: in flow style it is one line of some 80 KB (6500 values), and it is a list like any other
+	if vals := ya.Get("validations"); vals != nil && rapid.IntRange(0, 5).Draw(t, "longList") == 0 {
+		n := rapid.SampledFrom([]int{31, 32, 33, 100, 6500}).Draw(t, "longListLen")
+		vals.Set("vlong", bigListValidation(n, "p0"))
+		lv := ya.Get("violation")
+		if lv == nil {
+			lv = m.YSeq()
+			ya.Set("violation", lv)
+		}
+		lv.Items = append(lv.Items, m.YStr("vlong"))
+		used[fmt.Sprintf("long-list:%d", n)] = true
 	}
 	yb := ya.Clone()
 	permuteTree(t, yb, true, used)
